@@ -52,8 +52,9 @@ func liveFlows(ctx context.Context, mgr *gpcapture.Manager, iface string) []reco
 }
 
 type burst struct {
-	at   time.Duration
-	pkts []pkt
+	at    time.Duration
+	pkts  []pkt
+	iface string
 }
 
 type ctlOp struct {
@@ -73,6 +74,16 @@ func captureRun(r *sim.R, focus string) *sim.Violation {
 	if focus == "C20" {
 		bufLimit = 64 << 20
 	}
+	// C21: one run in four captures on two interfaces that share the one local packet buffer of
+	// the pool (the default of goProbe): while one capture drains what it buffered, the
+	// controller goes on to pause the next one
+	ifaces := []string{"eth0"}
+	if focus == "C21" && t.Draw(4) == 0 {
+		ifaces = []string{"eth0", "eth1"}
+		bufLimit = 64 << 20
+		r.RuntimeRandom = true // the manager walks its captures in Go map order
+		r.Probe("two_interfaces_share_the_local_buffer")
+	}
 	allowV6 := t.Draw(4) != 0
 	nConv := 1 + t.Draw(6)
 	var convs []conversation
@@ -88,8 +99,13 @@ func captureRun(r *sim.R, focus string) *sim.Violation {
 	nBursts := 1 + t.Draw(5)
 	var allPkts []pkt
 	for i := 0; i < nBursts; i++ {
-		b := burst{at: instants[t.Draw(len(instants))]}
+		b := burst{at: instants[t.Draw(len(instants))], iface: ifaces[t.Draw(len(ifaces))]}
 		n := 1 + t.Draw(12)
+		if len(ifaces) > 1 {
+			// traffic on both interfaces around the rotations: both pause windows hold packets
+			b.at = []time.Duration{299 * time.Second, 300 * time.Second, 301 * time.Second, 600 * time.Second}[t.Draw(4)]
+			n = 8 + t.Draw(56)
+		}
 		if focus != "C20" && bufLimit <= 12288 && t.Draw(3) == 0 {
 			n = 150 + t.Draw(600) // enough to fill a small local buffer within one pause window
 		}
@@ -105,6 +121,23 @@ func captureRun(r *sim.R, focus string) *sim.Violation {
 			allPkts = append(allPkts, p)
 		}
 		bursts = append(bursts, b)
+		if len(ifaces) > 1 {
+			// the twin burst on the other interface at the same instant
+			tb := burst{at: b.at, iface: ifaces[0]}
+			if b.iface == ifaces[0] {
+				tb.iface = ifaces[1]
+			}
+			for j, m := 0, 8+t.Draw(56); j < m; j++ {
+				ci := t.Draw(len(convs))
+				p := convs[ci].packet(t, seen[ci], tag)
+				p.kind = "ok"
+				seen[ci]++
+				tag++
+				tb.pkts = append(tb.pkts, p)
+				allPkts = append(allPkts, p)
+			}
+			bursts = append(bursts, tb)
+		}
 	}
 	sort.SliceStable(bursts, func(i, j int) bool { return bursts[i].at < bursts[j].at })
 	var ops []ctlOp
@@ -118,12 +151,15 @@ func captureRun(r *sim.R, focus string) *sim.Violation {
 		r.Note("%s", p)
 	}
 
-	cfg := &config.Config{DB: config.DBConfig{Path: wdb, EncoderType: "lz4"}, Interfaces: config.Ifaces{"eth0": config.DefaultCaptureConfig()}}
+	cfg := &config.Config{DB: config.DBConfig{Path: wdb, EncoderType: "lz4"}, Interfaces: config.Ifaces{}}
+	for _, i := range ifaces {
+		cfg.Interfaces[i] = config.DefaultCaptureConfig()
+	}
 	done := make(chan struct{}, 4)
 	var mgr *gpcapture.Manager
 	var initErr error
 	ready := make(chan struct{})
-	var finalLive []record
+	finalLive := map[string][]record{}
 	var liveSnaps int
 	start := time.Now()
 	// controller
@@ -142,9 +178,11 @@ func captureRun(r *sim.R, focus string) *sim.Violation {
 			w.yield("ctl " + op.kind)
 			switch op.kind {
 			case "status":
-				mgr.Status(w.ctx, "eth0")
+				mgr.Status(w.ctx, ifaces...)
 			case "live":
-				liveFlows(w.ctx, mgr, "eth0")
+				for _, i := range ifaces {
+					liveFlows(w.ctx, mgr, i)
+				}
 				liveSnaps++
 			}
 		}
@@ -153,14 +191,21 @@ func captureRun(r *sim.R, focus string) *sim.Violation {
 		}
 		// wait until the wire is drained, then take the final snapshot of the in-memory flows
 		for w.ctx.Err() == nil {
-			src := w.current("eth0")
-			if src == nil || src.Pending() == 0 {
+			pending := 0
+			for _, i := range ifaces {
+				if src := w.current(i); src != nil {
+					pending += src.Pending()
+				}
+			}
+			if pending == 0 {
 				break
 			}
 			time.Sleep(100 * time.Millisecond)
 		}
 		w.yield("ctl final snapshot")
-		finalLive = liveFlows(w.ctx, mgr, "eth0")
+		for _, i := range ifaces {
+			finalLive[i] = liveFlows(w.ctx, mgr, i)
+		}
 	}()
 	// wire
 	go func() {
@@ -176,7 +221,7 @@ func captureRun(r *sim.R, focus string) *sim.Violation {
 			}
 			for _, p := range b.pkts {
 				w.yield("wire inject")
-				if src := w.current("eth0"); src != nil {
+				if src := w.current(b.iface); src != nil {
 					src.Inject(p.wire())
 				}
 			}
@@ -196,6 +241,48 @@ func captureRun(r *sim.R, focus string) *sim.Violation {
 	r.Nontriv = true
 
 	// ---- oracle ----
+	if len(ifaces) > 1 {
+		// per interface: everything read from its source is in its blocks or its in-memory flows
+		// (the shared buffer is large: no overflow may be reported)
+		if n := sink.count("local packet buffer overflow"); n > 0 {
+			return r.Report(&sim.Violation{Clause: "packet-refused-before-the-limit", Signature: "two interfaces sharing one local buffer", Detail: fmt.Sprintf("%d overflows reported with a limit of %d bytes", n, bufLimit)})
+		}
+		if fw := sink.matching("failed to perform writeout"); len(fw) > 0 {
+			return r.Report(&sim.Violation{Clause: "writeout-failed", Signature: "write-out reports an error", Detail: strings.Join(fw, "\n")})
+		}
+		for _, iface := range ifaces {
+			var delivered []pkt
+			consumed := map[int]bool{}
+			for _, p := range w.sources[iface][0].Consumed {
+				consumed[p.Tag] = true
+			}
+			for _, b := range bursts {
+				if b.iface != iface {
+					continue
+				}
+				for _, p := range b.pkts {
+					if !consumed[p.tag] {
+						return r.Report(&sim.Violation{Clause: "packets-never-read", Signature: "two interfaces", Detail: fmt.Sprintf("packet %s injected on %s was never read from the source", p, iface)})
+					}
+					delivered = append(delivered, p)
+				}
+			}
+			recs, byBlock, err := w.dbRecords(iface)
+			if err != nil {
+				return r.Report(&sim.Violation{Clause: "database-unreadable", Signature: "after capture", Detail: err.Error()})
+			}
+			recs = append(recs, finalLive[iface]...)
+			if src := w.sources[iface][0]; src.InWindow > 0 {
+				r.Probe("packets_consumed_in_pause_window")
+			}
+			if v := checkConservation(r, delivered, recs, byBlock, 0, focus); v != nil {
+				v.Signature += ", two interfaces sharing one local buffer"
+				v.Detail = "interface " + iface + ": " + v.Detail
+				return v
+			}
+		}
+		return nil
+	}
 	src := w.sources["eth0"][0]
 	consumed := map[int]bool{}
 	for _, p := range src.Consumed {
@@ -214,10 +301,10 @@ func captureRun(r *sim.R, focus string) *sim.Violation {
 	if err != nil {
 		return r.Report(&sim.Violation{Clause: "database-unreadable", Signature: "after capture", Detail: err.Error()})
 	}
-	recs = append(recs, finalLive...)
+	recs = append(recs, finalLive["eth0"]...)
 	overflows := sink.count("local packet buffer overflow")
 	failedWrites := sink.matching("failed to perform writeout")
-	r.Event("blocks=%d records=%d in-memory=%d overflows=%d live snapshots=%d", len(byBlock), len(recs)-len(finalLive), len(finalLive), overflows, liveSnaps)
+	r.Event("blocks=%d records=%d in-memory=%d overflows=%d live snapshots=%d", len(byBlock), len(recs)-len(finalLive["eth0"]), len(finalLive["eth0"]), overflows, liveSnaps)
 	if overflows > 0 {
 		r.Probe("local_buffer_overflow")
 	}
